@@ -19,8 +19,15 @@ import (
 // ---- shared encodings (see coq/C04/Run.v) ----
 
 var keyStrings = []string{"0", "1", "2", "3", "10", "4294967294", // array indices
-	"4294967295", "-0", "1e3", "01", "a", "b", "c", "1.0"} // plain strings (6..13); 14..17 symbols
-const nKeys = 18
+	"4294967295", "-0", "1e3", "01", "a", "b", "c", "1.0", // plain strings (6..18) ...
+	"4294967296", "10000000000", // ... integers beyond the array-index range
+	"apply", "abs", "parse"} // ... own keys of the built-in kinds; 19..22 symbols
+const nKeys = 23
+const firstSym = 19
+
+// number form of a key (op.F == 1): array indices and the integer-valued strings beyond the index range
+var keyNumbers = map[int]int64{0: 0, 1: 1, 2: 2, 3: 3, 4: 10, 5: 4294967294, 6: 4294967295, 14: 4294967296, 15: 10000000000}
+
 const (
 	sSyntax  = 0
 	sObject  = 1
@@ -57,7 +64,9 @@ type Case struct {
 	Ops    []Op     `json:"ops"`
 }
 
-var kinds = []string{"plain", "nullproto", "func", "class", "args", "string", "bound", "goobj", "arrow"}
+var kinds = []string{"plain", "nullproto", "func", "class", "args", "string", "bound", "goobj", "arrow",
+	"math", "json", "reflect", "funcproto"} // the last four: lazily templated built-in objects
+var builtinKey = map[string]int{"math": 17, "json": 18, "reflect": 16, "funcproto": 16}
 
 // ---- generator ----
 
@@ -112,7 +121,12 @@ func genCase(r *vh.Rng) Case {
 	n := 2 + r.Intn(3)
 	c := Case{}
 	for i := 0; i < n; i++ {
-		k := kinds[r.Pick(30, 8, 10, 6, 8, 6, 4, 6, 3)]
+		k := kinds[r.Pick(30, 8, 10, 6, 8, 6, 4, 6, 3, 3, 3, 3, 3)]
+		for _, used := range c.Kinds {
+			if _, b := builtinKey[k]; b && used == k {
+				k = "plain" // a built-in object exists once per runtime
+			}
+		}
 		c.Kinds = append(c.Kinds, k)
 		p := -1
 		if i > 0 && r.Chance(75) {
@@ -126,28 +140,51 @@ func genCase(r *vh.Rng) Case {
 	// a small per-case key pool so that operations collide
 	poolN := 2 + r.Intn(5)
 	pool := make([]int, poolN)
+	// profile 1 ("key order"): index keys and integer strings beyond the index range, enumerate / delete / add and
+	// number-keyed Reflect.set through prototypes, few dumps (a dump enumerates and so orders goja's key lists)
+	profile := r.Pick(70, 30)
 	for i := range pool {
-		switch r.Pick(5, 4, 3) {
+		w := []int{5, 4, 3, 2}
+		if profile == 1 {
+			w = []int{8, 1, 1, 5}
+		}
+		switch r.Pick(w...) {
 		case 0:
 			pool[i] = r.Intn(6)
 		case 1:
-			pool[i] = 6 + r.Intn(8)
+			pool[i] = 7 + r.Intn(7)
+		case 2:
+			pool[i] = firstSym + r.Intn(4)
 		default:
-			pool[i] = 14 + r.Intn(4)
+			pool[i] = []int{6, 14, 15}[r.Intn(3)]
+		}
+	}
+	j := 0
+	for _, kd := range c.Kinds { // the own key of a built-in kind is always in the pool
+		if bk, ok := builtinKey[kd]; ok && j < poolN {
+			pool[j] = bk
+			j++
 		}
 	}
 	dumpP := []int{100, 100, 35, 10}[r.Intn(4)]
+	if profile == 1 {
+		dumpP = []int{10, 3, 0}[r.Intn(3)]
+	}
 	nops := 1 + r.Intn(40)
 	for i := 0; i < nops; i++ {
 		op := Op{O: r.Intn(n), K: pool[r.Intn(poolN)], S: r.Intn(4), St: r.Bool(), R: 0}
 		op.R = op.O
-		if op.K < 6 && r.Chance(40) {
+		if _, ok := keyNumbers[op.K]; ok && r.Chance(40) {
 			op.F = 1
 			if op.K == 0 && r.Chance(30) {
 				op.F = 2
 			}
 		}
-		switch r.Pick(30, 18, 8, 4, 4, 8, 5, 2, 2, 2, 2, 2, 1, 2, 5) {
+		weights := []int{30, 18, 8, 4, 4, 8, 5, 2, 2, 2, 2, 2, 1, 2, 5}
+		if profile == 1 {
+			weights = []int{28, 22, 3, 3, 3, 22, 12, 1, 1, 1, 1, 1, 0, 0, 3}
+		}
+		switch r.Pick(weights...) {
 		case 0:
 			op.T = "def"
 			op.D = genDesc(r)
@@ -228,11 +265,6 @@ func genCase(r *vh.Rng) Case {
 				op.S = 1 + r.Intn(3)
 			}
 		}
-		// String objects answer numeric-key own-property queries wrongly (known finding C04-N4): keep the
-		// shape in the stream but rare, so that it does not dominate the mismatches
-		if op.F == 1 && c.Kinds[op.O] == "string" && (op.T == "own" || op.T == "set") && !r.Chance(20) {
-			op.F = 0
-		}
 		op.Dump = r.Chance(dumpP)
 		c.Ops = append(c.Ops, op)
 	}
@@ -244,8 +276,8 @@ func genCase(r *vh.Rng) Case {
 const prelude = `
 var O = [], KC = new Map(), OC = new Map();
 var K = ["0","1","2","3","10","4294967294","4294967295","-0","1e3","01","a","b","c","1.0",
+         "4294967296","10000000000","apply","abs","parse",
          Symbol("s0"),Symbol("s1"),Symbol("s2"),Symbol("s3")];
-var KN = [0,1,2,3,10,4294967294];
 for (var i = 0; i < K.length; i++) KC.set(K[i], i);
 function vcode(v) { if (v === undefined) return 0; if (typeof v === 'number' && v > 0 && v < 100 && v === Math.floor(v)) return v;
   if (OC.has(v)) return 100 + OC.get(v); return 9999; }
@@ -267,6 +299,14 @@ function DUMP(o) {
   var ps = p === null ? "0" : (OC.has(p) ? "" + (OC.get(p) + 1) : "99");
   return "OD " + ps + " " + (Object.isExtensible(o) ? "true" : "false") + " [" + out.join("; ") + "]";
 }
+// initial dump without enumerating (lazily templated objects must stay un-materialised): the pool keys in K order
+function DUMP0(o) {
+  var out = [];
+  for (var c = 0; c < K.length; c++) { var d = Object.getOwnPropertyDescriptor(o, K[c]); if (d !== undefined) out.push(pdump(c, d)); }
+  var p = Object.getPrototypeOf(o);
+  var ps = p === null ? "0" : (OC.has(p) ? "" + (OC.get(p) + 1) : "99");
+  return "OD " + ps + " " + (Object.isExtensible(o) ? "true" : "false") + " [" + out.join("; ") + "]";
+}
 function HIDDEN(o) { var ks = Reflect.ownKeys(o), n = 0; for (var i = 0; i < ks.length; i++) if (!KC.has(ks[i])) n++; return n; }
 function KEYS(ks) { var out = []; for (var i = 0; i < ks.length; i++) { var c = KC.get(ks[i]); if (c !== undefined) out.push(c); } return out.join("; "); }
 function MK(kind) {
@@ -279,6 +319,10 @@ function MK(kind) {
   case "string": return new String("");
   case "bound": return (function () {}).bind(null);
   case "arrow": return () => 1;
+  case "math": return Math;
+  case "json": return JSON;
+  case "reflect": return Reflect;
+  case "funcproto": return Function.prototype;
   }
 }
 `
@@ -462,10 +506,10 @@ func (e *env) dumpObj(i int) string {
 }
 
 func (e *env) keyVal(op Op) goja.Value {
-	if op.K < 6 {
+	if n, ok := keyNumbers[op.K]; ok {
 		switch op.F {
 		case 1:
-			return e.rt.ToValue([]int64{0, 1, 2, 3, 10, 4294967294}[op.K])
+			return e.rt.ToValue(n)
 		case 2:
 			if op.K == 0 {
 				v, _ := e.rt.RunString("-0")
@@ -477,10 +521,10 @@ func (e *env) keyVal(op Op) goja.Value {
 }
 
 func (e *env) keySrc(op Op) string {
-	if op.K < 6 {
+	if n, ok := keyNumbers[op.K]; ok {
 		switch op.F {
 		case 1:
-			return []string{"0", "1", "2", "3", "10", "4294967294"}[op.K]
+			return fmt.Sprint(n)
 		case 2:
 			if op.K == 0 {
 				return "-0"
@@ -559,7 +603,7 @@ func (e *env) exec(op Op, tags map[string]bool) (string, string, bool) {
 	}
 	o := e.objs[op.O]
 	rt := e.rt
-	isSym := op.K >= 14
+	isSym := op.K >= firstSym
 	name := ""
 	if !isSym {
 		name = keyStrings[op.K]
@@ -575,9 +619,11 @@ func (e *env) exec(op Op, tags map[string]bool) (string, string, bool) {
 	switch {
 	case op.K < 6:
 		tags["key:index"] = true
+	case op.K == 6 || op.K == 14 || op.K == 15:
+		tags["key:integer-string-beyond-index-range"] = true
 	case op.K < 10 || op.K == 13:
 		tags["key:numeric-looking-string"] = true
-	case op.K < 14:
+	case op.K < firstSym:
 		tags["key:string"] = true
 	default:
 		tags["key:symbol"] = true
@@ -912,7 +958,11 @@ func runCase(c Case) vh.Record {
 	last := make([]string, n)
 	var init []string
 	for i := 0; i < n; i++ {
-		last[i] = e.dumpObj(i)
+		if v, err := e.call("DUMP0", e.objs[i]); err == nil {
+			last[i] = v.String()
+		} else {
+			last[i] = "OD 0 false [PD 0 9999 0]"
+		}
 		init = append(init, last[i])
 	}
 	tags := map[string]bool{}
